@@ -304,6 +304,26 @@ def _alias_uses(f, assign, parents):
     return worst
 
 
+def _emits(prog, g, seen, depth=0):
+    """Does function g (or what it calls, two levels) write to a stream, print or yield?"""
+    if g.fq in seen or depth > 2:
+        return False
+    seen.add(g.fq)
+    for x in walk_own(g.node):
+        if isinstance(x, (ast.Yield, ast.YieldFrom)):
+            return True
+        if isinstance(x, ast.Call):
+            if isinstance(x.func, ast.Attribute) and x.func.attr in ('write', 'writelines'):
+                return True
+            if isinstance(x.func, ast.Name) and x.func.id == 'print' and 'print' not in g.locals:
+                return True
+            c = prog.callee(x, g)
+            h = prog.func(c[0], c[1], required=False) if c else None
+            if h is not None and h.fq != g.fq and _emits(prog, h, seen, depth + 1):
+                return True
+    return False
+
+
 def _order_sensitive(loop, listtxt, prog=None, f=None):
     """Why the body of `for x in <stored list>` depends on the order (or changes the list), else None."""
     for st in loop.body:
@@ -319,6 +339,8 @@ def _order_sensitive(loop, listtxt, prog=None, f=None):
                         evs = []
                     if any(e.kind in ('DET', 'ATT', 'CLR', 'OTHER') for e in evs):
                         return 'the body calls %s, which re-links nodes: the stored list can change while it is iterated' % g.fq
+                    if _emits(prog, g, set()):
+                        return 'the body calls %s, which writes / yields: the output follows the stored order' % g.fq
             if isinstance(x, (ast.Yield, ast.YieldFrom)):
                 return 'the body yields in that order'
             if isinstance(x, (ast.Break, ast.Return)):
